@@ -18,6 +18,15 @@ var haveSched = false
 // RunCase re-executes one recorded case and returns the violations it produces.
 var Engines = map[string]func(prop string, payload json.RawMessage) ([]Violation, error){}
 
+// offsetBases are the leaf counts the offset-start families begin at: around 2^5, 2^31, 2^32, 2^33
+// (counts whose low 32 bits are all ones / all zeros after a few additions), 2^62 and just below 2^63.
+func offsetBases(thorough bool) []uint64 {
+	if !thorough {
+		return []uint64{31, 32, 1<<31 + 1, 1<<32 - 1, 1<<33 - 2, 1<<62 + 1, 1<<63 - 4}
+	}
+	return []uint64{31, 32, 33, 1<<31 - 1, 1 << 31, 1<<31 + 1, 1<<32 - 2, 1<<32 - 1, 1 << 32, 1<<32 + 1, 1<<33 - 2, 1<<33 - 1, 3<<32 - 1, 1<<62 - 1, 1 << 62, 1<<62 + 1, 1<<63 - 4}
+}
+
 func allTR() []uint8 {
 	out := make([]uint8, 64)
 	for i := range out {
@@ -81,7 +90,7 @@ func init() {
 		}
 		// offset-start family: Stump and partial MapPollard started from the bare roots of large
 		// accumulators (rows 5..63), then a few added leaves are added, remembered, deleted, undone
-		ob := pick(c, []uint64{32, 1<<31 + 1, 1<<62 + 1, 1<<63 - 4}, []uint64{31, 32, 33, 1<<31 - 1, 1 << 31, 1<<31 + 1, 1<<32 - 1, 1<<32 + 1, 1<<62 - 1, 1<<62 + 1, 1<<63 - 4})
+		ob := offsetBases(c.Thorough())
 		c.Cov.Bound["offset_start.bases"] = fmt.Sprint(ob)
 		for _, b := range ob {
 			if c.Expired() {
@@ -159,6 +168,16 @@ func init() {
 		c.Cov.Bound["TotalRows"] = fmt.Sprint(trs)
 		c.Cov.Bound["undo_budget"] = fam.UndoBud
 		BFS(c, fam, 0)
+		// partial forests started from the bare roots of large accumulators (rows up to 63): after
+		// every undo the stored positions, the cached-leaf table and every proof must be those of
+		// the reference forest of the pre-block state
+		c.Cov.Bound["offset_start.bases"] = fmt.Sprint(offsetBases(c.Thorough()))
+		for _, b := range offsetBases(c.Thorough()) {
+			if c.Expired() {
+				break
+			}
+			BFS(c, &PartialFamily{Nmax: pick(c, 3, 4), TR: 63, UndoBud: pick(c, 1, 2), SetLimit: 2, NoIngest: true, Prop: "C09", UndoAs: "C06", Collect: "C06", Base: b}, 0)
+		}
 		if c.Thorough() && !c.Expired() {
 			d3 := &HistFamily{
 				Nmax:      5,
